@@ -11,6 +11,10 @@ enforced by schema validation), all types, all values and every `shape` fuel:
   the declared type, unknown variants only with a fallback); the three rejections of the statement are
   corollaries;
 * `reencoding_stable` — what is written back is accepted again and written back unchanged;
+* `newer_data_survives_older_type` — for two environments where the new one keeps every definition, field and
+  variant of the old one (and may add fields, variants and definitions) and the old structs / enums have a
+  fallback: whatever the old types write back for a value is read by the new types exactly as they read the
+  value itself, at every nesting level;
 * `known_fields_written`, `unknown_fields_kept`, `unknown_fields_dropped_without_fallback`,
   `unknown_variant_kept` — what exactly is written back for a struct / enum, with and without fallback.
 
@@ -19,6 +23,7 @@ generator's output for the schema corpus (see DESIGN.md).
 -/
 import Aldrin.Lemmas.TypedConf
 import Aldrin.Lemmas.TypedFields
+import Aldrin.Lemmas.TypedEvolve
 
 namespace Aldrin.Typed
 open Aldrin
@@ -167,6 +172,20 @@ theorem known_fields_written {env : Env} (hwf : env.WF) {n : Nat} {ty : Ty} {fs 
         unfold accept; simp [hso, ha]
       simp [emit, hl', this, okVal, hr]
 
+/-- Data written by a newer schema version survives passing through code generated from an older one: for
+every value that both versions of a type accept, the new type reads the old type's output as it reads the
+original. -/
+theorem newer_data_survives_older_type {envO envN : Env} (hx : Ext envO envN) (n : Nat) (ty : Ty) (v wo wn : Value)
+    (hO : accept envO n ty v = .ok wo) (hN : accept envN n ty v = .ok wn) :
+    accept envN n ty wo = .ok wn :=
+  survives hx n v ty wo wn hO hN
+
+/-- ... and the old type does accept it when it conforms to the old schema with unknown fields / variants
+tolerated, which for a struct or enum with fallback is all that can be asked of data it has never seen. -/
+theorem older_type_accepts {envO : Env} (hwf : envO.WF) (n : Nat) (ty : Ty) (v : Value)
+    (h : Conf envO n ty v) : ∃ wo, accept envO n ty v = .ok wo :=
+  conf_accept hwf h
+
 /-! ### the premises are satisfiable, and the statements say something about concrete values -/
 
 def envEx : Env :=
@@ -201,5 +220,28 @@ example : accept envEx 8 (.ref "Choice") (.enum 5 (.bool true)) = .ok (.enum 5 (
   simp [accept, shape, envEx, Env.get?, findVariant]
 example : accept envEx 8 (.ref "Strict") (.enum 5 (.bool true)) = .error () := by
   simp [accept, shape, envEx, Env.get?, findVariant]
+
+-- an old and a new version of a record type: the new one adds a field and a variant
+def envOld : Env :=
+  [("Kind", .enum [⟨0, none⟩, ⟨1, some (.int .u16)⟩] true),
+   ("Record", .struct [⟨1, true, .int .u32⟩, ⟨2, false, .ref "Kind"⟩] true)]
+
+def envNew : Env :=
+  [("Kind", .enum [⟨0, none⟩, ⟨1, some (.int .u16)⟩, ⟨2, some .string⟩] true),
+   ("Record", .struct [⟨1, true, .int .u32⟩, ⟨2, false, .ref "Kind"⟩, ⟨3, false, .vec .string⟩] true)]
+
+theorem envOld_envNew_ext : Ext envOld envNew := Ext_of_check (by decide)
+
+-- a record written by the new version (new variant inside an old field, new field), through the old type ...
+example : accept envOld 8 (.ref "Record")
+      (.map .field [(.int 3, .some (.vec [.string [104]])), (.int 2, .some (.enum 2 (.string [120]))), (.int 1, .int .u32 5)])
+    = .ok (.map .field [(.int 1, .int .u32 5), (.int 2, .some (.enum 2 (.string [120]))), (.int 3, .some (.vec [.string [104]]))]) := by
+  simp [accept, shape, envOld, Env.get?, acceptFields, keyId, findField, findVariant, Field.wireTy, finishFields, lastOf, dedupLast]
+
+-- ... and read by the new type again: everything is still there.
+example : accept envNew 8 (.ref "Record")
+      (.map .field [(.int 1, .int .u32 5), (.int 2, .some (.enum 2 (.string [120]))), (.int 3, .some (.vec [.string [104]]))])
+    = .ok (.map .field [(.int 1, .int .u32 5), (.int 2, .some (.enum 2 (.string [120]))), (.int 3, .some (.vec [.string [104]]))]) := by
+  simp [accept, acceptElems, shape, envNew, Env.get?, acceptFields, keyId, findField, findVariant, Field.wireTy, finishFields, lastOf, dedupLast]
 
 end Aldrin.Typed
